@@ -494,6 +494,11 @@ def finish(prop, tier, seed, results, listing_errors, t0, quiet, repo, canaries=
                                  "bounded": f"{o['ran']} seeded random inputs (seed {q['seed']}) run on the real code, all clauses held; "
                                             f"{o.get('precondition_false', 0)} inputs outside the precondition", "why_not_proved": why})
                 undecided = [(h, l, w) for h, l, w in undecided if h != q["name"]]
+                for ob in [ob for ob in obligations if ob["status"] == "unknown" and ob["id"].startswith(q["name"] + "/")]:
+                    obligations.remove(ob)     # not proved, not counted: listed with the bounded stand-in instead
+                    ob["status"] = "bounded-native"
+                    ob["bounded"] = degraded[-1]["bounded"]
+                    bounded.append(ob)
             for label, args in hits.items():
                 ident = f"{q['name']}/{label}"
                 kf = match_known(known, prop, ident, None)
